@@ -72,6 +72,9 @@ package mr
 //@   ensures [one-item-one-mapper-call] calls(mapper) == 1 && arg(mapper, 0) == item
 //@   ensures [slot-returned] calls("recv") == 1 && calls("wg.Done") == 1 && before("wg.Done", "recv")
 //@   ensures [panic-reported] panicked(mapper) ==> calls(write) == 1 && failed == old(failed) + 1
+// a panicking mapper is reported BEFORE it signs off (otherwise the collector may close and the call return a
+// partial result while the panic is still on its way)
+//@   ensures [panic-reported-before-signing-off] panicked(mapper) ==> before(write, "wg.Done")
 //@   ensures [no-panic-no-report] !panicked(mapper) ==> calls(write) == 0 && failed == old(failed)
 //@ func WithWorkers$1
 //@   prop C07
@@ -92,6 +95,8 @@ package mr
 //@   ensures [generated-into-the-source] calls(generate, source) == 1
 //@   ensures [source-closed-always] calls(on("close", source)) == 1 && before(generate, on("close", source))
 //@   ensures [panic-forwarded-once] (calls(panicChan.write) == 1) == panicked(generate) && calls(write) <= 1
+// the caller must learn of the panic before the pipeline can run dry: forwarded BEFORE the source is closed
+//@   ensures [panic-forwarded-before-the-source-closes] panicked(generate) ==> before(write, on("close", source))
 // drain: consumes until the channel is closed.
 //@ func drain
 //@   prop C07
